@@ -153,7 +153,7 @@ func validateWitnesses(prog *ssa.Program, pkg *ssa.Package, results []*harnessRe
 				w.Result, w.Detail = "mismatch", "native run: "+o.Result
 			case o.Consumed != len(w.Vector):
 				w.Result, w.Detail = "mismatch", fmt.Sprintf("native run consumed %d nondets, symbolic path created %d", o.Consumed, len(w.Vector))
-			case strings.Join(o.Asserts, "\x00") != strings.Join(w.Asserts, "\x00"):
+			case sortedJoin(o.Asserts) != sortedJoin(w.Asserts): // as multisets: Go's map iteration order is random natively
 				w.Result, w.Detail = "mismatch", fmt.Sprintf("assertion sequence differs: native evaluated %d assertions, symbolic path %d", len(o.Asserts), len(w.Asserts))
 			default:
 				w.Result = "agree"
@@ -284,4 +284,11 @@ next:
 		groups = append(groups, []*witness{w})
 	}
 	return groups
+}
+
+
+func sortedJoin(a []string) string {
+	b := append([]string(nil), a...)
+	sort.Strings(b)
+	return strings.Join(b, "\x00")
 }
